@@ -406,7 +406,6 @@ func genClaim(rng *rand.Rand, names []string, reclaim time.Duration) claim {
 	return c
 }
 
-
 // ---- batches: several claims about one subject delivered at the same instant ----
 
 type absRec struct {
@@ -674,7 +673,7 @@ func TestC01(t *testing.T) {
 	}
 
 	// ---- random sequences ----
-	nseq := run.Pick(240, 24000)
+	nseq := run.Pick(800, 240000)
 	for i := 0; i < nseq; i++ {
 		if !run.Mine(i) {
 			continue
